@@ -265,10 +265,12 @@ func (gc *graphChecker) step(s ghState, op gmodel.Op) histmc.Succ[ghState] {
 	}
 	seenComp := map[string]bool{}
 	for _, m := range bestDiff {
-		if seenComp[m.Comp] {
+		// one report per component AND direction: an entry that is missing must not hide behind an extra
+		// entry of the same component that a listed finding explains
+		if seenComp[m.Comp+"|"+listDirection(m.Want, m.Got)] {
 			continue
 		}
-		seenComp[m.Comp] = true
+		seenComp[m.Comp+"|"+listDirection(m.Want, m.Got)] = true
 		sig := fmt.Sprintf("%s|%s|%s", out.Class, m.Comp, listDirection(m.Want, m.Got))
 		gc.run.Report(vf.Violation{Sig: sig,
 			Detail: fmt.Sprintf("history [%s]: %s %s: model %s, implementation %s", histString(hist), m.Comp, m.Item, m.Want, m.Got),
